@@ -1296,9 +1296,6 @@ func (p *Program) LiftGuard(mk func(fn *ssa.Function) GuardMatch, depth int) fun
 			g = lifted(cal)
 		}
 		removed := p.PassEdges(cal, g)
-		if len(removed) == 0 {
-			return false
-		}
 		ok := true
 		n := 0
 		if wantBool == nil {
